@@ -243,6 +243,10 @@ def cmp_(F, R):
                 ne = not bool_label(lab)
             if desc.startswith('discr(') and lab in ('Equal', 'Less', 'Greater', 'otherwise'):
                 eqb = lab
+            if ('::ne(' in desc or '::eq(' in desc) and '.ticks' in desc and 'Equal' in desc and bool_label(lab) is not None:
+                # `if ticks_ordering != Ordering::Equal { return Some(ticks_ordering) }`
+                is_eq = bool_label(lab) if '::eq(' in desc else not bool_label(lab)
+                eqb = 'Equal' if is_eq else 'otherwise'
         ret = str(p.ret)
         if ne is True:
             seen.add('different-clock')
